@@ -24,6 +24,7 @@ import GgrsModel.Proofs.SpecHost
 import GgrsModel.Proofs.DelayStep
 import GgrsModel.Proofs.LockstepNet
 import GgrsModel.Proofs.DropSpec
+import GgrsModel.Proofs.LockstepNetDrop
 
 namespace Ggrs.Spectator
 
@@ -212,5 +213,35 @@ theorem C06_host_rows_drops (x y : P2P × TLState) (h0 : XInv x) (hn : 0 ≤ x.1
   obtain ⟨confirmed, s1, s2, gh1, hconf, _, hn1, hoff, hn', hl1, hl2⟩ :=
     rollbackTick_offersD y.1 s' gh y.2 [] reqs' now st0 hy hny hadv
   exact ⟨gh1, confirmed, s1, s2, hconf, hn1, hoff, hn', hl1, hl2⟩
+
+/-- **C06, C07 and C11, the network side of a lockstep session with dropped players and delay changes.**
+After any run of remote-input arrivals, lockstep `advance_frame` calls, `set_input_delay` calls for
+local players, accepted `disconnect_player` calls and Disconnected events, one more call hands its
+remote endpoints only consecutive, complete frames carrying the local players' queue inputs
+(`Sends`) and offers its spectators the next frames in order, each the row `rowMapD` — real inputs,
+and the frameless blank input for every player marked disconnected as of an earlier frame —
+together with its connection statuses; and the lockstep invariants (C07_lockstep_timeline) hold
+again. -/
+theorem C06_lockstep_net_drops (x y : P2P × TLState) (h0 : LkNetInvD x) (hrun : LkYStar x y)
+    (now : Nat) (s' : P2P) (reqs' : List Request) (hadv : y.1.advanceLockstepFrame now [] = .ok (s', reqs')) :
+    ∃ (gh gh1 gh' : DGhost) (sA sB sC sD : P2P), LkInvD y.1 gh y.2 ∧ LkInvD s' gh' (execReqs y.2 reqs') ∧
+      gh'.specs = gh1.specs ∧ (∀ p, PrefixOf (gh.specs p).vals (gh1.specs p).vals) ∧
+      sA.lastSentOutgoingInputFrame = y.1.lastSentOutgoingInputFrame ∧ Sends gh1.g now sA sB ∧
+      s'.lastSentOutgoingInputFrame = sB.lastSentOutgoingInputFrame ∧
+      sC.nextSpectatorFrame = y.1.nextSpectatorFrame ∧
+      OffersD gh1 sC.localConnectStatus y.1.sync.queues.length now sC sD ∧
+      s'.nextSpectatorFrame = sD.nextSpectatorFrame := by
+  obtain ⟨⟨gh, hl, hg⟩, hn⟩ := LkNetInvD_run x y h0 hrun
+  obtain ⟨gh1, gh', sA, sB, sC, sD, hl', _, _, hsp, hpre, a1, a2, a3, b1, b2, b3⟩ :=
+    lockstepTick_netD y.1 s' gh y.2 now reqs' hl hg hn hadv
+  exact ⟨gh, gh1, gh', sA, sB, sC, sD, hl, hl', hsp, hpre, a1, a2, a3, b1, b2, b3⟩
+
+/-- The premises are satisfiable: a freshly built lockstep session. -/
+example (s : P2P) (R : Nat → List (Input × InputStatus)) (n : Nat)
+    (hq : s.sync.queues = List.replicate n InputQueue.new) (hst : s.localConnectStatus = List.replicate n {})
+    (hc : s.sync.currentFrame = 0) (hdf : s.disconnectFrame = NULL_FRAME)
+    (ho : s.outgoingLocalInputs = []) (hn : 0 ≤ s.nextSpectatorFrame) :
+    LkNetInvD (s, ⟨0, R⟩) :=
+  ⟨⟨_, LkInvD_init s R n hq hst hc hdf, GlueInv_init s _ n (fun _ => rfl) ho hst (by rw [hq]; simp)⟩, hn⟩
 
 end Ggrs
